@@ -33,6 +33,19 @@ CHECKS = {
  'C05': dict(seed_offset=5, level='exploration', rule=RULE_A, props=['C05'],
              batches=[dict(profile='mem', flavour='asan', quick=8000, thorough=300000), dict(profile='mem', flavour='plain', quick=40000, thorough=2000000)],
              must_probe=['lusup_allocs_checked', 'dyn_slots', 'abort_storage_exceeded']),
+ 'C06': dict(seed_offset=6, level='exploration', rule=RULE_A, props=['C06', 'C05'],
+             batches=[dict(profile='sing', flavour='plain', quick=50000, thorough=2500000), dict(profile='sing', flavour='asan', quick=5000, thorough=200000)],
+             must_probe=['singular_runs', 'structural_zero_column_runs', 'sing_profile_nonsingular_runs', 'zero_pivot_columns'],
+             assumptions=["the structural-rank clause is asserted exactly only where symbolic elimination along the library's own pivot sequence leaves a structurally empty candidate set; rank deficiency that appears as cancellation between computed quantities is counted (inexact_cancellation_class), not asserted"]),
+ 'C07': dict(seed_offset=7, level='exploration', rule=RULE_A, props=['C07'],
+             batches=[dict(profile='svx', flavour='plain', quick=40000, thorough=2000000), dict(profile='svx', flavour='asan', quick=3000, thorough=100000)],
+             must_probe=['svx_calls_checked', 'svx_equed_1', 'svx_equed_2', 'svx_equed_3', 'svx_contracting_class', 'svx_unrefined_solves_checked', 'svx_trans_2_NC_fact2', 'svx_trans_1_NR_fact1']),
+ 'C12': dict(seed_offset=12, level='exploration', rule=RULE_A, props=['C12'],
+             batches=[dict(profile='svx', flavour='plain', quick=40000, thorough=2000000)],
+             must_probe=['svx_rcond_checked', 'svx_rpg_checked', 'svx_info_n_plus_1', 'numbering_ne_storage_order']),
+ 'C13': dict(seed_offset=13, level='exploration', rule=RULE_A, props=['C13'],
+             batches=[dict(profile='svx', flavour='plain', quick=40000, thorough=2000000)],
+             must_probe=['svx_berr_checked', 'svx_berr_small_checked', 'svx_ferr_checked']),
  'C09': dict(seed_offset=9, level='exploration', rule=RULE_A, props=['C09'],
              batches=[dict(profile='strf', flavour='plain', quick=60000, thorough=3000000), dict(profile='ssv', flavour='plain', quick=20000, thorough=1000000)],
              must_probe=['factorizations_checked', 'numbering_ne_storage_order']),
